@@ -19,6 +19,12 @@
    value is yielded ONCE; [Str] = stm.stream(x) -- a plain value is an infinite constant
    stream.  Pattern objects behave identically in both modes.
 
+   Random patterns: only Pseed-wrapped Prand / Pxrand / Pwhite(int bounds).  Pseed runs its body
+   in a fresh Routine whose generator is random.Random(seed); the model takes the draws from an
+   ORACLE [rnd seed h a b] = result of randrange(a, b) on the generator seeded with [seed] after
+   the calls in the history [h] (recorded from the implementation in the correspondence, universally
+   quantified in the theorems).
+
    Numbers are SC3.lib.PyNum.num (Python int = I z, float = F q "ideal float");
    bi.wrap / bi.roundup / bi.mod / bi.min / bi.max / bi.clip / bi.fold are the
    REGENERATED definitions of gen/Gen_builtins.v. *)
@@ -141,7 +147,10 @@ Inductive pat :=
 | Pswitch (l : list pat) (which : pat)
 | Pswitch1 (l : list pat) (which : pat)
 | Ptuple (l : list pat) (r : reps)
-| Pslide (l : list pat) (len step : pat) (start : Z) (wrap : bool) (r : reps).
+| Pslide (l : list pat) (len step : pat) (start : Z) (wrap : bool) (r : reps)
+| PseedRand (seed : pat) (l : list pat) (r : reps)          (* Pseed(seed, Prand(l, r)) *)
+| PseedXrand (seed : pat) (l : list pat) (r : reps)         (* Pseed(seed, Pxrand(l, r)) *)
+| PseedWhite (seed lo hi : pat) (len : reps).               (* Pseed(seed, Pwhite(lo, hi, len)), int bounds *)
 
 Definition in_reps (r : reps) (j : nat) : bool :=
   match r with Inf => true | Fin n => (Z.of_nat j <? n)%Z end.
@@ -155,24 +164,28 @@ Definition wrap_at {A} (l : list A) (i : Z) : option A :=
   match l with [] => None | _ => nth_error l (Z.to_nat (i mod Z.of_nat (length l))) end.
 
 (* The k-th item that an embedding list pattern embeds (k counts items over all repeats) *)
-Inductive ires := IDone | IErr | IItem (q : pat).
+Inductive ires := IDone | IErr | ISpin | IItem (q : pat).
+(* An EMPTY list cannot be constructed (ListPattern.__init__ raises ValueError) but the
+   attribute can be emptied afterwards; __embed__ then behaves as follows: Pseq / Place loop
+   over nothing (empty sequence; with inf repeats the generator spins for ever = ISpin),
+   Pser divides by zero as soon as it iterates. *)
+Definition empty_reps (r : reps) : ires := match r with Inf => ISpin | Fin _ => IDone end.
 Definition item_at (p : pat) (k : nat) : ires :=
   match p with
   | Pseq l r off =>
       let n := length l in
-      match n with O => IErr (* ListPattern refuses an empty list *) | _ =>
+      match n with O => empty_reps r | _ =>
         if in_reps r (k / n) then
           match wrap_at l (Z.of_nat (k mod n) + off) with Some q => IItem q | None => IErr end
         else IDone end
   | Pser l r off =>
-      match l with [] => IErr | _ =>
-        if in_reps r k then
-          match wrap_at l (Z.of_nat k + off) with Some q => IItem q | None => IErr end
-        else IDone end
+      if in_reps r k then
+        match wrap_at l (Z.of_nat k + off) with Some q => IItem q | None => IErr (* % 0 *) end
+      else IDone
   | Pn q r => if in_reps r k then IItem q else IDone
   | Place l r off =>
       let n := length l in
-      match n with O => IErr | _ =>
+      match n with O => empty_reps r | _ =>
         if in_reps r (k / n) then
           match wrap_at l (Z.of_nat (k mod n) + off) with
           | Some sub => match wrap_at sub (Z.of_nat (k / n)) with
@@ -182,7 +195,18 @@ Definition item_at (p : pat) (k : nat) : ires :=
   | _ => IErr
   end.
 
+Fixpoint split_at {A} (i : nat) (l : list A) {struct l} : option (list A * A * list A) :=
+  match l with
+  | [] => None
+  | x :: r => match i with
+              | O => Some ([], x, r)
+              | S i' => match split_at i' r with
+                        | Some (pre, c, post) => Some (x :: pre, c, post) | None => None end
+              end
+  end.
+
 (* ------------------------------------------------------- operational model *)
+Definition hist := list (Z * Z).     (* earlier randrange(a, b) calls on one generator, most recent first *)
 Inductive sstate :=
 | SDone
 | SOnce (v : val)                       (* embed(value): yields it once *)
@@ -204,13 +228,19 @@ Inductive sstate :=
 | SIfA (c t e : sstate) | SIfB (b : bool) (c t e : sstate)
 | SSeries (mul : bool) (cur : num) (i : option nat) (cs : sstate)
 | SSwI (cw : sstate) (l : list pat) | SSwE (cur cw : sstate) (l : list pat)
-| SSw1A (cw : sstate) (cs : list sstate) | SSw1B (i : nat) (cw : sstate) (cs : list sstate)
+| SSw1A (cw : sstate) (cs : list sstate) | SSw1Z (pre : list sstate) (c : sstate) (post : list sstate) (cw : sstate)
 | STupR (j : nat) (r : reps) (l : list pat)
 | STupP (acc : list val) (done todo : list sstate) (j : nat) (r : reps) (l : list pat)
 | SSlA (i : option nat) (pos : num) (cl cs : sstate) (l : list pat) (w : bool)
 | SSlJ (j rem : nat) (i : option nat) (pos : num) (cl cs : sstate) (l : list pat) (w : bool)
 | SSlE (cur : sstate) (j rem : nat) (i : option nat) (pos : num) (cl cs : sstate) (l : list pat) (w : bool)
-| SSlS (i : option nat) (pos : num) (cl cs : sstate) (l : list pat) (w : bool).
+| SSlS (i : option nat) (pos : num) (cl cs : sstate) (l : list pat) (w : bool)
+(* Pseed: seed stream, then the body inside a routine with generator (seed z, next call idx) *)
+| SSeedA (cs : sstate) (p : pat)
+| SSdR (z : Z) (idx : hist) (k : option nat) (cur cs : sstate) (p : pat)
+| SSdX (z : Z) (idx : hist) (index : Z) (k : option nat) (cur cs : sstate) (p : pat)
+| SSdWA (z : Z) (idx : hist) (k : option nat) (clo chi cs : sstate) (p : pat)
+| SSdWB (lo : val) (z : Z) (idx : hist) (k : option nat) (clo chi cs : sstate) (p : pat).
 
 Fixpoint init (m : mode) (p : pat) {struct p} : sstate :=
   match p with
@@ -235,6 +265,7 @@ Fixpoint init (m : mode) (p : pat) {struct p} : sstate :=
   | Pswitch1 l w => SSw1A (init Str w) (map (init Str) l)
   | Ptuple l r => STupR 0 r l
   | Pslide l len step start w r => SSlA (cnt_of r) (I start) (init Str len) (init Str step) l w
+  | PseedRand sd _ _ | PseedXrand sd _ _ | PseedWhite sd _ _ _ => SSeedA (init Str sd) p
   end.
 
 Inductive out (S : Type) := Stop | Err | Tau (s : S) | Yield (v : val) (s : S).
@@ -246,6 +277,35 @@ Definition bindp {S} (r : out S) (K : S -> S) (onstop : out S) (onyield : val ->
 
 Definition ostep (o : option (out sstate)) : out sstate := match o with Some r => r | None => Err end.
 
+Section Oracle.
+(* rnd seed h a b: result of randrange(a, b) on a generator created as random.Random(seed) on
+   which the calls listed in h (most recent first) were made before -- the result of a call
+   is a function of the seed and of all earlier calls, nothing else *)
+Variable rnd : Z -> hist -> Z -> Z -> Z.
+
+(* lst[bi.rand(size)] *)
+Definition rand_item (l : list pat) (z : Z) (idx : hist) : option pat :=
+  let size := Z.of_nat (length l) in
+  let i := rnd z idx 0%Z size in
+  if ((0 <=? i) && (i <? size))%Z then nth_error l (Z.to_nat i) else None.
+(* Pxrand: index = (index + bi.rand(size - 1) + 1) % size; bi.rand(0) makes no call *)
+Definition xrand_step (l : list pat) (z : Z) (idx : hist) (index : Z) : option (pat * Z * hist) :=
+  let size := Z.of_nat (length l) in
+  match l with
+  | [] => None
+  | _ =>
+    let '(d, idx') := if (size =? 1)%Z then (0%Z, idx) else (rnd z idx 0%Z (size - 1)%Z, (0, size - 1)%Z :: idx) in
+    let index' := ((index + d + 1) mod size)%Z in
+    match nth_error l (Z.to_nat index') with Some q => Some (q, index', idx') | None => None end
+  end.
+(* bi.rrand(lo, hi) on ints: randrange(lo, hi) (either direction); lo == hi makes no call *)
+Definition white_draw (lo hi : val) (z : Z) (idx : hist) : option (val * hist) :=
+  match lo, hi with
+  | VN (I a), VN (I b) =>
+      if (a =? b)%Z then Some (VN (I a), idx) else Some (VN (I (rnd z idx a b)), (a, b) :: idx)
+  | _, _ => None                      (* float bounds: not modelled *)
+  end.
+
 Fixpoint snext (s : sstate) : out sstate :=
   match s with
   | SDone => Stop
@@ -255,6 +315,7 @@ Fixpoint snext (s : sstate) : out sstate :=
       bindp (snext cur) (fun c => SEmb c k p)
         (match item_at p k with
          | IDone => Stop | IErr => Err
+         | ISpin => Tau (SEmb SDone k p)               (* for _ in count(): for item in []: pass *)
          | IItem q => Tau (SEmb (init Emb q) (S k) p) end)
         (fun v c => Yield v (SEmb c k p))
   (* Plen: for _ in range(n): yield stream.next() *)
@@ -383,20 +444,15 @@ Fixpoint snext (s : sstate) : out sstate :=
         (fun iv x => match as_index iv with
                      | None => Err
                      | Some z => match cs with
-                                 | [] => Err
-                                 | _ => Tau (SSw1B (Z.to_nat (z mod Z.of_nat (length cs))) x cs) end
+                                 | [] => Err                               (* indx % 0 *)
+                                 | _ => match split_at (Z.to_nat (z mod Z.of_nat (length cs))) cs with
+                                        | Some (pre, c, post) => Tau (SSw1Z pre c post x)
+                                        | None => Err end
+                                 end
                      end)
-  | SSw1B i0 cw cs =>
-      (fix go (pre l : list sstate) (i : nat) {struct l} : out sstate :=
-         match l with
-         | [] => Err
-         | c :: r =>
-             match i with
-             | O => bindp (snext c) (fun c' => SSw1B i0 cw (pre ++ c' :: r)) Stop
-                      (fun v c' => Yield v (SSw1A cw (pre ++ c' :: r)))
-             | S i' => go (pre ++ [c]) r i'
-             end
-         end) [] cs i0
+  | SSw1Z pre c post cw =>
+      bindp (snext c) (fun c' => SSw1Z pre c' post cw) Stop
+        (fun v c' => Yield v (SSw1A cw (pre ++ c' :: post)))
   (* Ptuple: fresh streams for every repeat; one value of each, in order *)
   | STupR j r l =>
       match l with
@@ -447,6 +503,50 @@ Fixpoint snext (s : sstate) : out sstate :=
                      | Some st => match nadd pos st with
                                   | NErr => Err
                                   | np => Tau (SSlA (cnt_dec i) np cl x l w) end
+                     | None => Err end)
+  (* Pseed: rout.rand_seed = seed_stream.next(); the body runs with its own generator *)
+  | SSeedA cs p =>
+      bindp (snext cs) (fun x => SSeedA x p) Stop
+        (fun sv x =>
+           match as_index sv with
+           | None => Err                              (* non-int seeds: not modelled *)
+           | Some z =>
+             match p with
+             | PseedRand _ l r => match l with [] => Err | _ => Tau (SSdR z [] (cnt_of r) SDone x p) end
+             | PseedXrand _ l r =>
+                 match l with
+                 | [] => Err
+                 | _ => Tau (SSdX z [(0, Z.of_nat (length l))%Z] (rnd z [] 0%Z (Z.of_nat (length l))) (cnt_of r) SDone x p) end
+             | PseedWhite _ lo hi len => Tau (SSdWA z [] (cnt_of len) (init Str lo) (init Str hi) x p)
+             | _ => Err
+             end
+           end)
+  | SSdR z idx k cur cs p =>
+      bindp (snext cur) (fun x => SSdR z idx k x cs p)
+        (if cnt_zero k then Tau (SSeedA cs p) else
+         match p with
+         | PseedRand _ l _ => match rand_item l z idx with
+                              | Some q => Tau (SSdR z ((0, Z.of_nat (length l))%Z :: idx) (cnt_dec k) (init Emb q) cs p)
+                              | None => Err end
+         | _ => Err end)
+        (fun v x => Yield v (SSdR z idx k x cs p))
+  | SSdX z idx index k cur cs p =>
+      bindp (snext cur) (fun x => SSdX z idx index k x cs p)
+        (if cnt_zero k then Tau (SSeedA cs p) else
+         match p with
+         | PseedXrand _ l _ => match xrand_step l z idx index with
+                               | Some (q, index', idx') => Tau (SSdX z idx' index' (cnt_dec k) (init Emb q) cs p)
+                               | None => Err end
+         | _ => Err end)
+        (fun v x => Yield v (SSdX z idx index k x cs p))
+  | SSdWA z idx k clo chi cs p =>
+      if cnt_zero k then Tau (SSeedA cs p) else
+      bindp (snext clo) (fun x => SSdWA z idx k x chi cs p) (Tau (SSeedA cs p))
+        (fun lo x => Tau (SSdWB lo z idx k x chi cs p))
+  | SSdWB lo z idx k clo chi cs p =>
+      bindp (snext chi) (fun x => SSdWB lo z idx k clo x cs p) (Tau (SSeedA cs p))
+        (fun hi x => match white_draw lo hi z idx with
+                     | Some (v, idx') => Yield v (SSdWA z idx' (cnt_dec k) clo x cs p)
                      | None => Err end)
   end.
 
@@ -512,6 +612,7 @@ Fixpoint temb (f : nat -> ires) (d : pat -> trace) (count start : nat) : trace :
   | O => ([], EMore)
   | S c => match f start with
            | IDone => ([], EStop) | IErr => ([], EErr)
+           | ISpin => ([], EMore)
            | IItem q => tapp (d q) (temb f d c (S start)) end
   end.
 Fixpoint tlen (n : nat) (l : list val) (e : tend) : trace :=
@@ -680,10 +781,132 @@ Fixpoint tswitch (d : pat -> trace) (l : list pat) (lw : list val) (ew : tend) :
       end
   end.
 
+
+(* Pswitch1: persistent streams; each index takes ONE value of the chosen stream *)
+Fixpoint tsw1 (ts : list trace) (lw : list val) (ew : tend) : trace :=
+  match lw with
+  | [] => ([], ew)
+  | iv :: lw' =>
+      match as_index iv with
+      | None => ([], EErr)
+      | Some z =>
+          match ts with
+          | [] => ([], EErr)
+          | _ => match split_at (Z.to_nat (z mod Z.of_nat (length ts))) ts with
+                 | Some (pre, (l, e), post) =>
+                     match l with
+                     | [] => ([], e)
+                     | v :: l' => tcons v (tsw1 (pre ++ (l', e) :: post) lw' ew) end
+                 | None => ([], EErr) end
+          end
+      end
+  end.
+(* Ptuple: one value of every stream, in order; the round of rows ends with the first stream
+   that ends *)
+Fixpoint heads (ts : list trace) : (list val * list trace) + tend :=
+  match ts with
+  | [] => inl ([], [])
+  | (l, e) :: r =>
+      match l with
+      | [] => inr e
+      | v :: l' => match heads r with
+                   | inl (vs, r') => inl (v :: vs, (l', e) :: r') | inr e' => inr e' end
+      end
+  end.
+Definition trows_from (rows : list trace -> trace) (acc : list val) (dts tts : list trace) : trace :=
+  match heads tts with
+  | inr e => ([], e)
+  | inl (vs, tts') => tcons (VT (acc ++ vs)) (rows (dts ++ tts')) end.
+Fixpoint trows (fuel : nat) (ts : list trace) : trace :=
+  match fuel with
+  | O => ([], EMore)
+  | S f => trows_from (trows f) [] [] ts
+  end.
+Fixpoint trep (count : nat) (r : reps) (j : nat) (t : trace) : trace :=
+  match count with
+  | O => ([], EMore)
+  | S c => if in_reps r j then tapp t (trep c r (S j) t) else ([], EStop)
+  end.
+(* Pslide: one window = rem items from position pos + j on, then K (the rest) *)
+Fixpoint twin (d : pat -> trace) (l : list pat) (w : bool) (pos : num) (j rem : nat) (K : trace) : trace :=
+  match rem with
+  | O => K
+  | S rem' =>
+      match pos with
+      | I z =>
+          let idx := (z + Z.of_nat j)%Z in
+          if w then
+            match wrap_at l idx with
+            | Some q => tapp (d q) (twin d l w pos (S j) rem' K) | None => ([], EErr) end
+          else if ((0 <=? idx) && (idx <? Z.of_nat (length l)))%Z then
+            match nth_error l (Z.to_nat idx) with
+            | Some q => tapp (d q) (twin d l w pos (S j) rem' K) | None => ([], EErr) end
+          else ([], EStop)
+      | _ => ([], EErr)
+      end
+  end.
+Fixpoint tslide (d : pat -> trace) (l : list pat) (w : bool) (i : option nat) (pos : num)
+         (llen : list val) (elen : tend) (lstep : list val) (estep : tend) {struct llen} : trace :=
+  if cnt_zero i then ([], EStop) else
+  match llen with
+  | [] => ([], elen)
+  | lv :: llen' =>
+      match as_index lv with
+      | None => ([], EErr)
+      | Some z =>
+          twin d l w pos 0 (Z.to_nat z)
+            (match lstep with
+             | [] => ([], estep)
+             | sv :: lstep' =>
+                 match as_num sv with
+                 | None => ([], EErr)
+                 | Some st => match nadd pos st with
+                              | NErr => ([], EErr)
+                              | np => tslide d l w (cnt_dec i) np llen' elen lstep' estep end
+                 end
+             end)
+      end
+  end.
+(* seeded random bodies; K = what follows the body (the next seed) *)
+Fixpoint trand (d : pat -> trace) (l : list pat) (z : Z) (k : option nat) (idx : hist) (count : nat) (K : trace) : trace :=
+  match count with
+  | O => ([], EMore)
+  | S c => if cnt_zero k then K else
+           match rand_item l z idx with
+           | Some q => tapp (d q) (trand d l z (cnt_dec k) ((0, Z.of_nat (length l))%Z :: idx) c K) | None => ([], EErr) end
+  end.
+Fixpoint txrand (d : pat -> trace) (l : list pat) (z : Z) (index : Z) (k : option nat) (idx : hist) (count : nat)
+         (K : trace) : trace :=
+  match count with
+  | O => ([], EMore)
+  | S c => if cnt_zero k then K else
+           match xrand_step l z idx index with
+           | Some (q, index', idx') => tapp (d q) (txrand d l z index' (cnt_dec k) idx' c K)
+           | None => ([], EErr) end
+  end.
+Fixpoint twhite (z : Z) (k : option nat) (idx : hist) (llo : list val) (elo : tend)
+         (lhi : list val) (ehi : tend) (K : trace) {struct llo} : trace :=
+  if cnt_zero k then K else
+  match llo with
+  | [] => match elo with EStop => K | _ => ([], elo) end
+  | lo :: llo' =>
+      match lhi with
+      | [] => match ehi with EStop => K | _ => ([], ehi) end
+      | hi :: lhi' => match white_draw lo hi z idx with
+                      | Some (v, idx') => tcons v (twhite z (cnt_dec k) idx' llo' elo lhi' ehi K)
+                      | None => ([], EErr) end
+      end
+  end.
+Fixpoint tseed (body : Z -> trace -> trace) (ls : list val) (es : tend) : trace :=
+  match ls with
+  | [] => ([], es)
+  | sv :: ls' => match as_index sv with
+                 | Some z => body z (tseed body ls' es) | None => ([], EErr) end
+  end.
+
 (* The denotation.  [k] is a budget: nesting depth still explored, number of items an
    embedding pattern may embed, and the known length of a constant stream; when it runs
-   out the trace ends with EMore (a sound "at least these values").
-   Pswitch1 / Ptuple / Pslide have no informative denotation yet (empty prefix). *)
+   out the trace ends with EMore (a sound "at least these values"). *)
 Fixpoint den (k : nat) (m : mode) (p : pat) {struct k} : trace :=
   match k with
   | O => ([], EMore)
@@ -711,9 +934,28 @@ Fixpoint den (k : nat) (m : mode) (p : pat) {struct k} : trace :=
     | Pseries st step len => let t := d Str step in tseries false st (cnt_of len) (fst t) (snd t)
     | Pgeom st grow len => let t := d Str grow in tseries true st (cnt_of len) (fst t) (snd t)
     | Pswitch l w => let tw := d Str w in tswitch (d Emb) l (fst tw) (snd tw)
-    | Pswitch1 _ _ | Ptuple _ _ | Pslide _ _ _ _ _ _ => ([], EMore)
+    | Pswitch1 l w => let tw := d Str w in tsw1 (map (d Str) l) (fst tw) (snd tw)
+    | Ptuple l r => match l with [] => ([], EErr) | _ => trep k' r 0 (trows k' (map (d Str) l)) end
+    | Pslide l len step start w r =>
+        match l with
+        | [] => ([], EErr)
+        | _ => let tl := d Str len in let ts := d Str step in
+               tslide (d Emb) l w (cnt_of r) (I start) (fst tl) (snd tl) (fst ts) (snd ts) end
+    | PseedRand sd l r =>
+        let t := d Str sd in
+        tseed (fun z K => match l with [] => ([], EErr) | _ => trand (d Emb) l z (cnt_of r) [] k' K end) (fst t) (snd t)
+    | PseedXrand sd l r =>
+        let t := d Str sd in
+        tseed (fun z K => match l with
+                          | [] => ([], EErr)
+                          | _ => txrand (d Emb) l z (rnd z [] 0%Z (Z.of_nat (length l))) (cnt_of r) [(0, Z.of_nat (length l))%Z] k' K end)
+              (fst t) (snd t)
+    | PseedWhite sd lo hi len =>
+        let t := d Str sd in let tl := d Str lo in let th := d Str hi in
+        tseed (fun z K => twhite z (cnt_of len) [] (fst tl) (snd tl) (fst th) (snd th) K) (fst t) (snd t)
     end
   end.
+End Oracle.
 
 (* --------------------------------------- comparison with the implementation *)
 Definition num_eqb (a b : num) : bool :=
@@ -746,5 +988,52 @@ Definition rend_code (e : rend) : nat := match e with RStop => 0 | RErr => 1 | R
 Definition res_eqb (a : list val * rend) (b : list val * nat) : bool :=
   vals_eqb (fst a) (fst b) && Nat.eqb (rend_code (snd a)) (snd b).
 (* output of two interleaved streams of ONE pattern under a schedule, as lists *)
-Definition run2 (sched : list bool) (p : pat) : list val * list val :=
-  let '((l1, _), (l2, _)) := isteps sched (init Str p) (init Str p) in (l1, l2).
+Definition run2 (rnd : Z -> hist -> Z -> Z -> Z) (sched : list bool) (p : pat) : list val * list val :=
+  let '((l1, _), (l2, _)) := isteps rnd sched (init Str p) (init Str p) in (l1, l2).
+(* oracle from a table of recorded draws (seed, earlier calls, start, stop, result) *)
+Fixpoint hist_eqb (a b : hist) : bool :=
+  match a, b with
+  | [], [] => true
+  | (x1, y1) :: r1, (x2, y2) :: r2 => ((x1 =? x2) && (y1 =? y2))%Z && hist_eqb r1 r2
+  | _, _ => false
+  end.
+Definition mk_rnd (tbl : list (Z * hist * Z * Z * Z)) : Z -> hist -> Z -> Z -> Z :=
+  fun z h a b =>
+    match find (fun e => let '(z', h', a', b', _) := e in
+                         ((z' =? z) && (a' =? a) && (b' =? b))%Z && hist_eqb h' h) tbl with
+    | Some (_, _, _, _, r) => r
+    | None => (-999999)%Z
+    end.
+Definition no_rnd : Z -> hist -> Z -> Z -> Z := fun _ _ _ _ => 0%Z.
+
+(* ------------------------------------------------ finite patterns (syntactic) *)
+(* nvb p: p is a pattern object, not a plain value.  finp p: every repeat count is finite and
+   every group of sub-streams pulled together contains a finite pattern (plain values are
+   allowed next to it), so that p ends after finitely many values whatever the values are. *)
+Definition nvb (p : pat) : bool := match p with PVal _ => false | _ => true end.
+Definition isfin (r : reps) : bool := match r with Fin _ => true | Inf => false end.
+Definition pos_count (p : pat) : bool :=
+  match p with
+  | PVal v => match as_int v with Some z => (0 <? z)%Z | None => true end
+  | _ => true
+  end.
+Fixpoint finp (p : pat) : bool :=
+  match p with
+  | PVal _ => true
+  | Pseq l r _ | Pser l r _ => isfin r && forallb finp l
+  | Pn q r => isfin r && finp q
+  | Place l r _ => isfin r && forallb (forallb finp) l
+  | Plen q _ => finp q
+  | Pdrop q _ | Pdiff q | Pconst q _ _ | Pfun _ _ q | Punop _ q => nvb q && finp q
+  | Pstutter q n | Pflatten q n => finp q && finp n && (nvb q || nvb n)
+  | Pclump q n => finp q && finp n && (nvb q || nvb n) && pos_count n
+  | Pwrap a b c | Pnarop _ a b c => finp a && finp b && finp c && (nvb a || nvb b || nvb c)
+  | Pbinop _ a b => finp a && finp b && (nvb a || nvb b)
+  | Pif c t e => nvb c && finp c && finp t && finp e
+  | Pseries _ st len | Pgeom _ st len => finp st && (isfin len || nvb st)
+  | Pswitch l w | Pswitch1 l w => nvb w && finp w && forallb finp l
+  | Ptuple l r => isfin r && forallb finp l && existsb nvb l
+  | Pslide l len step _ _ r => forallb finp l && finp len && finp step && (isfin r || nvb len || nvb step)
+  | PseedRand sd l r | PseedXrand sd l r => nvb sd && finp sd && isfin r && forallb finp l
+  | PseedWhite sd lo hi len => nvb sd && finp sd && finp lo && finp hi && (isfin len || nvb lo || nvb hi)
+  end.
